@@ -429,3 +429,25 @@ Proof.
   pose proof (webhook_message_spec max start g (if sr then alerts else filter (fun a => firing_at start a) alerts) Hm) as H.
   destruct (webhook_message max start g _) as [d t]. simpl. destruct H as (_ & H1 & H2 & _). auto.
 Qed.
+
+(* a chain fails iff it had something to do and its retry stage returned an error or its log write failed *)
+Lemma chain_failed_iff i g alerts start dl :
+  c_failed (chain i g alerts start dl) = true <->
+  alerts <> [] /\ g_needs_update g = true /\
+  (r_err (retry_exec (g_send_resolved g) (Some (length (filter (fun a => firing_at start a) alerts)))
+                     alerts start dl (g_ticks g) (g_script g)) <> None \/ g_log_ok g = false).
+Proof.
+  unfold chain. destruct alerts as [|a0 al].
+  { simpl. split; [discriminate|intros (H & _); congruence]. }
+  destruct (g_needs_update g); simpl.
+  2:{ split; [discriminate|intros (_ & H & _); discriminate]. }
+  set (alerts := a0 :: al) in *.
+  pose proof (retry_ok_out (g_send_resolved g) (Some (length (filter (fun a => firing_at start a) alerts)))
+                alerts start dl (g_ticks g) (g_script g)) as Hout.
+  set (r := retry_exec _ _ _ _ _ _ _) in *.
+  destruct (r_err r) eqn:Ee; simpl.
+  { split; [intros _; repeat split; try discriminate; left; discriminate|reflexivity]. }
+  rewrite (Hout eq_refl). simpl. rewrite negb_true_iff. split.
+  - intros H. repeat split; try discriminate. right. exact H.
+  - intros (_ & _ & [H|H]); [congruence|exact H].
+Qed.
